@@ -3693,7 +3693,10 @@ def _r4_oracle_cases(ctx, rng, big):
     # rows disagrees with the length (typical years are stitched from months of many years) or agrees with it
     flagless = [(8784, '2023'), (8760, '2016'), (8760, '0'), (8784, '1900'), (8760, '2000'), (8784, '2024'), (8760, '2017')]
     for j, (nr, yr) in enumerate(flagless):
-        if big:      # (quick: the lazy routes of files without the flag are op firstop's)
+        # (quick: the lazy routes of files without the flag are op firstop's; ONE case whose stamped year disagrees
+        #  with the number of rows stays in every quick run - both disagreeing shapes alternate over the seeds - so
+        #  that the branch 'the row count decides, not the stamped year' is reached without a search)
+        if big or j == ctx.seed % 2:
             yield 'ctors', dict({'spec': _r4_spec(rng, '', 'canon', nrows=nr, year=yr), 'lazy': ['data_first', 'header_first'][j % 2]},
                                 **({} if big and not ctx.quick else {'routes': ['path']}))
     for j in range(1 if not big else (6 if ctx.quick else 18)):
